@@ -1736,8 +1736,10 @@ static vbi_bool vbi_proxyd_token_grant( PROXY_CLNT * req )
          req->chn_state.token_state = REQ_TOKEN_GRANTED;
          break;
       case REQ_TOKEN_RELEASE:
-         /* reclaim already sent -> must re-assign token */
-         req->chn_state.token_state = REQ_TOKEN_GRANT;
+         /* reclaim already sent -> the client still has the token until it replies:
+         ** it will be scheduled again then (in state GRANT the token would be
+         ** considered free and could be granted to a second client meanwhile) */
+         token_free = FALSE;
          break;
       case REQ_TOKEN_GRANTED:
       case REQ_TOKEN_RETURNED:
